@@ -186,7 +186,7 @@ def rwlock(ctx, fx):
         calls = list(fn.events(p))
         if len(calls) != 1:
             det.append("expected one %s on getRemote(i), found %d" % (prim, len(calls)))
-        loops = [b for b in fn.blocks.values() if (b.get("term") or {}).get("cls") == "ForStmt"]
+        loops = [b for b in fn.blocks.values() if (b.get("term") or {}).get("cls") in ("ForStmt", "WhileStmt")]
         if len(loops) != 1:
             det.append("expected one loop")
         else:
